@@ -12,7 +12,7 @@ static rc::Gen<GNode> genNode(int depth)
 {
   using namespace rc;
   auto name = strOf("abXY_.09", 5);
-  auto value = strOf("ab <>/=\"'&;!-?\n\t1", 8);
+  auto value = strOf("ab <>/=\"'&;!-?\n\t1\\\\", 10);  // incl. backslashes: escape pairs such as \\" and \\\\ are kept raw
   auto prop = gen::tuple(name, value, pbt::range<int>(0, 7));
   auto content = gen::weightedOneOf<std::string>({{2, gen::just(std::string())}, {3, strOf("ab >\"'&;!-/= \n1", 10)}});
   auto kids = depth <= 0 ? gen::just(std::vector<GNode>())
@@ -58,6 +58,12 @@ static void p_roundtrip(const GDoc &d, pbt::Ctx &ctx)
     ctx.label("self-closing");
   if (pr.out.find("='") != std::string::npos)
     ctx.label("single-quotes");
+  if (pr.out.find("\\\"") != std::string::npos || pr.out.find("\\'") != std::string::npos)
+    ctx.label("escaped-quote");
+  if (pr.out.find("\\\\\\") != std::string::npos)
+    ctx.label("backslash-run>=3");
+  if (!pr.out.empty() && pr.out.size() % 4096 == 0)
+    ctx.label("size-multiple-of-4096");
 }
 
 // prefixes and single-byte mutations: the call returns or throws std::runtime_error, nothing else
